@@ -222,7 +222,8 @@ def c05_stages(tier):
 
 
 def c06_stages(tier):
-    return [s for s in prune_stages(tier) if not s.name.startswith('prunea')]
+    # pruning scenarios plus the terminal-count bounds of distilled ReLU networks
+    return [s for s in prune_stages(tier) if not s.name.startswith('prunea')] + c01_stages(tier)
 
 
 # ------------------------------------------------------------------------------------------ linalg (C10, C14, C15, C16)
@@ -250,6 +251,26 @@ def c10_stages(tier):
 
 LINALG_NOTE = ('Small scope: integer data (exact in f64), dimension <= 3, <= 2-4 rows; rows with irrational norms are outside the exact '
                'universe and only checked where the result stays rational. Trusted: TLC, FM (SelfTest), the JSON projection.')
+
+
+# ------------------------------------------------------------------------------------------ distill (C01, C17, C18)
+def DS(name, cfg, **kw):
+    return Stage(name, 'Trace_Distill', mc=('MC_Distill', cfg), shard_events=kw.pop('shard_events', 60), mc_workers=12, **kw)
+
+
+def c17_stages(tier):
+    if tier == 'thorough':
+        return [DS('schema-t', 'MC_Distill_schema_t.cfg'), DS('slice-q', 'MC_Distill_slice_q.cfg', shard_events=300)]
+    return [DS('schema-q', 'MC_Distill_schema_q.cfg'), DS('slice-q', 'MC_Distill_slice_q.cfg', shard_events=300)]
+
+
+def c01_stages(tier):
+    return [DS('distill-t', 'MC_Distill_distill_t.cfg', shard_events=30)] if tier == 'thorough' else [DS('distill-q', 'MC_Distill_distill_q.cfg', shard_events=30)]
+
+
+def c18_stages(tier):
+    return [DS('arch-t' if tier == 'thorough' else 'arch-q', 'MC_Distill_arch_t.cfg' if tier == 'thorough' else 'MC_Distill_arch_q.cfg', shard_events=200),
+            DS('npz-q', 'MC_Distill_npz_q.cfg', shard_events=200)]
 
 
 def fault_stages(tier):
@@ -367,6 +388,48 @@ CHECKS = {
         'design_ref': 'DESIGN.md 6/C10',
         'rule': 'one script per (system, objective); non-trivial = distinct by canonical hash',
         'assumptions': ['minilp back end (crate default); HiGHS is not built'],
+    },
+    'C17': {
+        'stages': c17_stages,
+        'level_text': 'Every predefined tree for dims 1-3 (4), every row / class and a parameter alphabet with breakpoint coincidences '
+                      '(alpha in {0, 1/2, 2, -1}, min<=max incl. min=max, lambda incl. 0, threshold/value pairs, optional bounds), from_poly with '
+                      'and without else-branch over 1-3 row polytopes (zero rows, empty, zero-width): the generator as schema.rs builds it (L1) is '
+                      'model-checked against the textbook definition (L0 pieces) by FM; the real generator output is recorded and TLC decides '
+                      'PwlEq(Pieces(tree), Textbook) - all inputs, breakpoints and ties included - plus evaluate() on a half-integer grid; '
+                      'from_slice ; compose ; remove_axes against the restriction of the piece set.',
+        'level_note': 'Exact rational data (scales 1, 2, 6); dims <= 4; trusted: TLC, FM, JSON projection. Textbook definitions are those of the '
+                      'standard references (hard-shrink strict, threshold x > t, argmax = first maximal index, class characterisation = is maximal).',
+        'design_ref': 'DESIGN.md 6/C17',
+        'rule': 'one script per specification; distinct by canonical hash',
+        'assumptions': [],
+    },
+    'C01': {
+        'stages': c01_stages,
+        'level_text': 'Layer sequences (input dim 1-2, one or two linear layers of width <= 2 from weight alphabets, every activation kind on all '
+                      'neurons or on one, optional argmax / class head for every class) x preconditions (none, box, empty, zero-width): the L1 '
+                      'model of afftree_from_layers (compose, eliminate, pruned compose for heads) is model-checked against NetPieces - the '
+                      'network semantics by activation patterns, no trees involved; the real distilled tree is recorded and TLC decides equality '
+                      'with NetPieces by FM for all inputs (exact, breakpoints and ties included, undefined outside the precondition) plus '
+                      'evaluate() on a grid.',
+        'level_note': 'Exact rational data at scale 12 (1/2, 1/6 representable); networks whose values leave that scale are validated only where '
+                      'every recorded node is exact (per-node exactness bit). The shipped MNIST / iris networks are not validated numerically.',
+        'design_ref': 'DESIGN.md 6/C01',
+        'rule': 'one script per (network, precondition); distinct by canonical hash',
+        'assumptions': ['precondition trees are built with from_poly(P, identity, None)'],
+    },
+    'C18': {
+        'stages': c18_stages,
+        'level_text': 'The Architecture builder as a state machine: all call sequences of length <= 3 (4) over linear layers of several shapes, '
+                      'partial and whole-layer activations with indices 0-2 and argmax, valid and invalid; the specification (accept iff '
+                      'dimension-compatible, shape = output dimension of accepted layers) is model-checked and every sequence replayed: TLC checks '
+                      'acceptance, tracked shape and operator count after every call, that the accepted architecture distills, and for every '
+                      'split point that Pieces(tree(0,k)) composed with Pieces(tree(k,n)) equals Pieces(tree(0,n)). Layer files: every net of the '
+                      'dialect alphabet written in reverse archive order with and without ".npy" suffix and "layers" entry is read back and '
+                      'compared with the expansion (weights, one activation entry per neuron).',
+        'level_note': 'Dims <= 3; npz files are written by the harness with ndarray-npy (3-digit zero-padded indices as in the shipped files).',
+        'design_ref': 'DESIGN.md 6/C18',
+        'rule': 'one script per call sequence / per file; distinct by canonical hash',
+        'assumptions': ['argmax requires dimension >= 2 and yields shape 1 (documented behaviour of the argmax schema)'],
     },
     'C11': {
         'stages': fault_stages,
